@@ -185,9 +185,18 @@ func runC25(c *Ctx) {
 		stdcfg.CipherSuites = []uint16{sc.suite}
 	}
 	ccfg := &tls.Config{ServerName: "example.test", RootCAs: Roots(), MinVersion: tls.VersionTLS10}
-	o := &ConnOutcome{Spec: &ConnSpec{ID: tls.HelloCustom, Peer: peer, SCfg: scfg, StdCfg: stdcfg, ReadSize: srs}, Link: l}
-	c.R.Class = fmt.Sprintf("v=%x suite=%04x peer=%s writes=%v crs=%d srs=%d fault=%s/%v/%d/%d", sc.ver, sc.suite, peerName(peer), lens(payload), crs, srs, fault, dirAB, foff, frec)
+	// in a third of the fault-free worlds the server closes immediately after its last echo:
+	// its close_notify is then buffered right behind the data the client has not consumed yet
+	closeAfter := 0
+	if fault == "none" && total > 0 && ch.Bool(60, "server-closes-after-echo") {
+		closeAfter = len("warm-up-record") + total
+		if srs < total {
+			srs = 32768 // echo in few records so that data and close_notify coalesce
+		}
+	}
+	o := &ConnOutcome{Spec: &ConnSpec{ID: tls.HelloCustom, Peer: peer, SCfg: scfg, StdCfg: stdcfg, ReadSize: srs, ServerCloseAfter: closeAfter}, Link: l}
 
+	c.R.Class = fmt.Sprintf("v=%x suite=%04x peer=%s writes=%v crs=%d srs=%d fault=%s/%v/%d/%d closeafter=%v", sc.ver, sc.suite, peerName(peer), lens(payload), crs, srs, fault, dirAB, foff, frec, closeAfter > 0)
 	srv := w.Go("server", func() { defaultServer(o, l.B) })
 	var u *tls.UConn
 	var cread []byte
